@@ -66,3 +66,16 @@ impl LuaIndex for LuaSignatureIndex {
         self.in_file_signatures.clear();
     }
 }
+
+/// Verification hook (feature `verif-hooks`, off by default): entry count of every container
+/// of this index, so that tests can observe growth of indexed state.
+#[cfg(feature = "verif-hooks")]
+impl LuaSignatureIndex {
+    pub fn verif_sizes(&self) -> Vec<(&'static str, usize)> {
+        vec![
+            ("signature.signatures", self.signatures.len()),
+            ("signature.in_file_signatures", self.in_file_signatures.len()),
+            ("signature.in_file_signatures.entries", self.in_file_signatures.values().map(|m| m.len()).sum::<usize>()),
+        ]
+    }
+}
